@@ -4,6 +4,7 @@
    Wal/CrcTab.v, Wal/Pb.v; it is tied to the Go code by the differential run of ./check C16. *)
 Require Import Base.Bytes Wal.Crc32c Wal.CrcTab Wal.Pb Wal.WalModel Wal.SnapModel.
 Require Import Wal.FrameProofs Wal.CrcProofs Wal.PbProofs Wal.WalProofs Wal.WalRefuted Wal.SnapProofs.
+Require Import Wal.TornProofs Wal.RepairProofs Wal.ReadAllProofs.
 Local Open Scope N_scope.
 
 (* ------------------------------------------------------------------ frames *)
@@ -104,6 +105,96 @@ Theorem C16_byte_flip_chain : forall crc pre a b suf (later : list bytes) d2,
   digest_write (chain c1) d2 <> digest_write (chain c1') d2.
 Proof. exact byte_flip_chain. Qed.
 Print Assumptions C16_byte_flip_chain.
+
+(* ------------------------------------------------------------------ crash images *)
+
+(* The tail segment holds the records rs_synced (written, then synced) followed by rs_unsynced
+   (written after the last sync), then kz zero bytes of preallocation.  A crash leaves ANY set
+   `lost` of 512-byte sectors unwritten (zero); bytes below the sync point are durable.  Under
+   the explicit, decidable side condition no_crc_coincidence (a record whose stored bytes were
+   changed by the crash is rejected by parser + CRC: a 32-bit checksum cannot exclude an
+   accidental match after a 512-byte erasure; the check evaluates it on every generated crash
+   image), the decode loop returns every synced record, then a whole prefix of the unsynced
+   records — firstn m of what was written, never anything else — and stops with a clean EOF or
+   with io.ErrUnexpectedEOF (the repairable error), never with a fatal one. *)
+Theorem C16_torn_tail : forall rs_synced rs_unsynced crc0 (lost : N -> bool) kz,
+  Forall raw_ok (rs_synced ++ rs_unsynced) -> Forall crc_rec_wf (rs_synced ++ rs_unsynced) ->
+  crc0 < lim32 -> (kz = 0 \/ 8 <= kz) ->
+  let '(rs', bs, _) := encode_recs crc0 (rs_synced ++ rs_unsynced) in
+  let synced := blen (snd (fst (encode_recs crc0 rs_synced))) in
+  let f := bs ++ zerosN kz in
+  let img := crash_image synced lost f in
+  no_crc_coincidence synced f img 0 crc0 rs' = true ->
+  exists m st crc',
+    decode_whole true crc0 img = (firstn m rs', st, frames_len (firstn m rs'), crc')
+    /\ (st = FEnd \/ st = FUnexp)
+    /\ (length rs_synced <= m <= length rs')%nat.
+Proof. exact torn_tail. Qed.
+Print Assumptions C16_torn_tail.
+
+(* the same at the level of Open+ReadAll over the whole directory (closed segments chained
+   into the tail): the result is ReadAll's result on a prefix of the written records that
+   contains every synced one — the entries and the hard state whose save had completed — or,
+   in write mode, io.ErrUnexpectedEOF; read mode (OpenForRead) tolerates the torn tail *)
+Theorem C16_torn_tail_readall : forall segs rs_synced rs_unsynced (lost : N -> bool) kz s_full,
+  Forall (Forall raw_ok) segs -> Forall (Forall crc_rec_wf) segs ->
+  Forall raw_ok (rs_synced ++ rs_unsynced) -> Forall crc_rec_wf (rs_synced ++ rs_unsynced) ->
+  (kz = 0 \/ 8 <= kz) ->
+  let '(fs, rsC, c) := closed_files 0 segs in
+  let '(rsT, bs, _) := encode_recs c (rs_synced ++ rs_unsynced) in
+  let synced := blen (snd (fst (encode_recs c rs_synced))) in
+  let f := bs ++ zerosN kz in
+  let img := crash_image synced lost f in
+  no_crc_coincidence synced f img 0 c rsT = true ->
+  interp_all 0 0 rs_init (rsC ++ rsT) = SOk s_full ->
+  exists m s_m,
+    (length rs_synced <= m <= length rsT)%nat
+    /\ interp_all 0 0 rs_init (rsC ++ firstn m rsT) = SOk s_m
+    /\ (read_all true 0 0 (fs ++ [img]) = result_w true s_m
+        \/ read_all true 0 0 (fs ++ [img]) = RAErr CUnexpEOF)
+    /\ read_all false 0 0 (fs ++ [img]) = result_w false s_m.
+Proof. exact torn_tail_readall. Qed.
+Print Assumptions C16_torn_tail_readall.
+
+(* a torn final record is repairable rather than fatal: Repair (which opens the last segment
+   with a fresh decoder; every segment starts with a crcType record) succeeds on every such
+   crash image, only cuts behind the last valid record, and the repaired segment reads back
+   the same records with a clean EOF *)
+Theorem C16_repair : forall rs_synced rs_unsynced crc0 (lost : N -> bool) kz,
+  let head := mkrec crcType 0 None in
+  Forall raw_ok (head :: rs_synced ++ rs_unsynced) -> Forall crc_rec_wf (head :: rs_synced ++ rs_unsynced) ->
+  crc0 < lim32 -> (kz = 0 \/ 8 <= kz) ->
+  let '(rs', bs, _) := encode_recs crc0 ((head :: rs_synced) ++ rs_unsynced) in
+  let synced := blen (snd (fst (encode_recs crc0 (head :: rs_synced)))) in
+  let f := bs ++ zerosN kz in
+  let img := crash_image synced lost f in
+  no_crc_coincidence synced f img 0 crc0 rs' = true ->
+  exists m off crc',
+    (S (length rs_synced) <= m <= length rs')%nat
+    /\ fst (repair img) = true
+    /\ decode_whole true crc0 (snd (repair img)) = (firstn m rs', FEnd, off, crc')
+    /\ (snd (repair img) = img \/ snd (repair img) = takeN off img).
+Proof. exact repair_torn_tail. Qed.
+Print Assumptions C16_repair.
+
+(* non-vacuity: a segment head, a metadata record (both synced), then an entry record of 600
+   bytes written after the sync; the crash loses sector 1 (bytes 512..1023).  The side condition
+   holds, the image reads back the two synced records and stops with ErrUnexpectedEOF, Repair
+   succeeds. *)
+Definition ex_synced : list wrec := [mkrec crcType 0 None; mkrec metadataType 0 (Some [x6d])].
+Definition ex_unsynced : list wrec := [mkrec entryType 0 (Some (repeat x37 600))].
+Definition ex_img : bytes :=
+  let '(_, bs, _) := encode_recs 0 (ex_synced ++ ex_unsynced) in
+  crash_image (blen (snd (fst (encode_recs 0 ex_synced)))) (fun s => s =? 1) (bs ++ zerosN 64).
+Example C16_torn_tail_ex :
+  let '(rs', bs, _) := encode_recs 0 (ex_synced ++ ex_unsynced) in
+  let synced := blen (snd (fst (encode_recs 0 ex_synced))) in
+  synced = 40
+  /\ no_crc_coincidence synced (bs ++ zerosN 64) ex_img 0 0 rs' = true
+  /\ fst (fst (decode_whole true 0 ex_img)) = (firstn 2 rs', FUnexp)
+  /\ fst (repair ex_img) = true
+  /\ fst (fst (decode_whole true 0 (snd (repair ex_img)))) = (firstn 2 rs', FEnd).
+Proof. vm_compute. repeat split; reflexivity. Qed.
 
 (* ------------------------------------------------------------------ the open finding *)
 
